@@ -89,6 +89,12 @@ def one(rep, rng, j):
         plan[n] = {'logs': ops}
         tokens.update({t: (n, ch) for t, ch in toks.items()})
     scn['task_plan'] = plan
+    if rng.random() < 0.45:
+        # some tasks fail AFTER emitting (the body logs, then raises): their output must arrive too
+        names = list(spec['tasks'])
+        kinds = ['raise:ValueError', 'raise:ValueError', 'raise:SystemExit', 'raise:Multi']
+        scn['failing'] = {n: rng.choice(kinds) for n in rng.sample(names, rng.randrange(1, min(3, len(names)) + 1))}
+        scn['cof'] = True
     if proc:
         scn['gated'] = rng.random() < 0.6
         if not scn['gated']:
@@ -109,9 +115,17 @@ def one(rep, rng, j):
     bad = {}
     from vlab import oracles
     E, _ = oracles.planned(scn, out)
+    tainted = oracles.tainted_set(scn, out)
+    from vlab.gen import flat_deps
+
+    def emits(n):
+        # executed, and no dependency failed (a task whose dependency failed raises before it logs anything)
+        return n in E and not any(d in tainted for d in flat_deps(spec, n))
     for t, (n, ch) in tokens.items():
-        if n not in E:
-            continue        # never executed: emitted nothing
+        if not emits(n):
+            continue        # never got to its logging statements
+        if n in (scn.get('failing') or {}):
+            rep.count('tokens_of_failing_tasks')
         k = text.count(t)
         rep.count('tokens_checked')
         rep.count('tokens_' + ch.split('-')[0])
@@ -123,6 +137,8 @@ def one(rep, rng, j):
     for key, msg in bad.items():
         rep.violation(key, msg, wit)
     last_emits = any(tokens[t][0] in last_round for t in tokens)
+    if any(n in last_round for n in (scn.get('failing') or {})):
+        rep.count('runs_where_a_failing_task_finishes_last')
     multi = any(ch == 'stdout-multiflush' for _, ch in tokens.values())
     rep.case(scn_key(scn) + [json.dumps(plan, sort_keys=True)[:2000]], last_emits or multi)
     rep.count(f'runs_{backend}')
@@ -140,6 +156,7 @@ def run_shard(rep):
     cfg = META['tiers'][rep.tier]
     rep.require('tokens_checked', 1000)
     rep.require('single_task_runs', 30)
+    rep.require('tokens_of_failing_tasks', 100)
     for j in range(rep.shard, cfg['n'], rep.nshards):
         if rep.expired():
             rep.count('skipped_for_time')
